@@ -1,5 +1,6 @@
 """C01 stock-flow consistency per currency: E1, one-period induction over the topology zoo."""
 import time
+import zlib
 
 import z3
 
@@ -25,8 +26,8 @@ def full_model(model, S):
     return out
 
 
-def setup(plan):
-    ctx = Z.build(plan)
+def setup(plan, order=None):
+    ctx = Z.build(plan, order=order)
     em = emit(ctx)
     return ctx, em
 
@@ -39,10 +40,11 @@ def param_names(plan, ctx, em):
     return literal_params(em.parser, names)
 
 
-def work(plan):
+def work(item):
+    plan, order, tag = item
     t0 = time.time()
-    rec = {'plan': plan.name, 'obs': [], 'features': sorted(plan.features)}
-    ctx, em = setup(plan)
+    rec = {'plan': plan.name, 'obs': [], 'features': sorted(plan.features), 'order': order, 'order_tag': tag}
+    ctx, em = setup(plan, order)
     if not em.text:
         rec['build_error'] = repr(em.err)
         return rec
@@ -58,7 +60,7 @@ def work(plan):
     pos = []
     for x in xr_names(ctx.model):
         pos += [S.var(x, 'a') > 0, S.var(x, 'b') > 0]
-    D = Decider(timeout_ms=60000)
+    D = Decider(timeout_ms=20000)
     r0, _ = D.decide(cons + pos, ladder=False)
     rec['reach'] = r0
     rec['n_eq'] = len(S.endo)
@@ -79,9 +81,9 @@ def work(plan):
                 net = fx.GetVariableName('NET_' + cz.Currency)
                 tot = tot + S.var(net, 'b')
         v, m = D.decide(cons + pos + [tot != 0])
-        if v in ('sat', 'unsat') and (len(rec['obs']) % XCHECK[0]) == 0:
+        if v in ('sat', 'unsat') and (zlib.crc32((plan.name + tag + cz.Currency).encode()) % XCHECK[0]) == 0:
             from vf.eqsmt import cvc5_check
-            c5 = cvc5_check(cons + pos + [tot != 0], 10000)
+            c5 = cvc5_check(cons + pos + [tot != 0], 8000)
             rec['cvc5_crosschecked'] = rec.get('cvc5_crosschecked', 0) + 1
             if c5 in ('sat', 'unsat') and c5 != v:
                 rec.setdefault('cvc5_disagreements', []).append('z3 %s vs cvc5 %s, zone %s' % (v, c5, cz.Currency))
@@ -132,7 +134,7 @@ from vf.replaylib import get_plan, check_period
 from vf import zoo as Z
 from vf.emit import emit
 plan = get_plan(%(plan)r)
-ctx = Z.build(plan)
+ctx = Z.build(plan, order=%(order)r)
 em = emit(ctx)
 vals = %(cex)r
 kind = %(kind)r
@@ -165,7 +167,7 @@ def run(tier, seed):
                sfc_models.external.ForexTransations._SendMoney, sfc_models.external.ForexTransations._ReceiveMoney,
                sfc_models.external.InternationalGold.SetGoldPurchases, sfc_models.equation.Equation.AddTerm,
                sfc_models.equation.Term.__init__)
-    XCHECK[0] = 8 if tier == 'quick' else 2
+    XCHECK[0] = 12 if tier == 'quick' else 3
     plans = Z.zoo(tier)
     chk.bounds = {'topologies': len(plans), 'periods': 'one-period induction (all k>=2) + base case k=1 when no initial condition is imposed',
                   'numeric domain': 'all reals: exogenous values of both periods, lagged state of the earlier period, declared literal parameters'}
@@ -175,7 +177,8 @@ def run(tier, seed):
                        'harness passed in, exogenous and lagged values are free']
     chk.outside = ['hand-written sector subclasses', 'topologies outside the zoo grammar (see DESIGN.md)',
                    'flows whose amount uses functions other than + - * /']
-    res = pmap(work, plans)
+    from vf.zoolib import plan_orders
+    res = pmap(work, plan_orders(plans, tier))
     tv = []
     for st, rec in res:
         if st != 'ok':
@@ -191,14 +194,14 @@ def run(tier, seed):
         chk.witness(rec['reach'] == 'sat', 'system of %s satisfiable' % rec['plan'])
         tv.extend(rec['tv'])
         for ob in rec['obs']:
-            chk.ob(ob['verdict'], '%s %s %s' % (rec['plan'], ob['kind'], ob['zone']), distinct=(rec['plan'], ob['kind'], ob['zone']))
-            chk.sample({'topology': rec['plan'], 'features': rec['features'], 'obligation': ob['kind'], 'zone': ob['zone'],
+            chk.ob(ob['verdict'], '%s %s %s' % (rec['plan'], ob['kind'], ob['zone']), distinct=(rec['plan'], rec['order_tag'], ob['kind'], ob['zone']))
+            chk.sample({'topology': rec['plan'], 'declaration_order': rec['order_tag'], 'features': rec['features'], 'obligation': ob['kind'], 'zone': ob['zone'],
                         'sectors': ob['sectors'], 'fx_position': ob['net'], 'equations': rec['n_eq'],
                         'freed_parameters': rec['params'], 'verdict': ob['verdict'], 'F_equation_sample': rec['sample_eq']})
             if ob['verdict'] == 'sat':
-                key = '%s:%s:%s' % (rec['plan'], ob['kind'], ob['zone'])
-                chk.violation(key, 'money created/destroyed in zone %s of topology %s: sum dF + FX = %s' % (ob['zone'], rec['plan'], ob.get('tot')),
-                              REPLAY % dict(plan=rec['plan'], cex=ob['cex'], kind=ob['kind'], sectors=ob['sectors'], net=ob['net'], zone=ob['zone']))
+                key = '%s:%s:%s:%s' % (rec['plan'], rec['order_tag'], ob['kind'], ob['zone'])
+                chk.violation(key, 'money created/destroyed in zone %s of topology %s (declaration order: %s): sum dF + FX = %s' % (ob['zone'], rec['plan'], rec['order_tag'], ob.get('tot')),
+                              REPLAY % dict(plan=rec['plan'], cex=ob['cex'], kind=ob['kind'], sectors=ob['sectors'], net=ob['net'], zone=ob['zone'], order=rec['order']))
         for k, v in rec.get('rungs', {}).items():
             chk.count('rung:' + k, v)
         chk.solver_s += rec.get('solver_s', 0.0)
